@@ -251,6 +251,7 @@ pub fn run_big(args: &[String]) -> i32 {
     let sizes: Vec<usize> = if thorough { vec![1, 700, 1023, 1024, 1025, 2048, 5000] } else { vec![1023, 1025] };
     let mut violations: Vec<Value> = Vec::new();
     let mut runs = 0usize;
+    let mut pairs_found = 0usize;
     for size in sizes {
         // pre-state: w0 with n0 and `size` nodes x<i>
         let mut store = warp_core::GraphStore::new(ids::warp("w0"));
@@ -268,6 +269,17 @@ pub fn run_big(args: &[String]) -> i32 {
                 picks.push((3, lbl.clone()));
             }
             i += 1;
+        }
+        // adversarial pair: the ONLY two rule-4 candidates of the tick conflict with each other (both write att(n0))
+        // and their scope hashes share the first 4 bytes (found by label search), so a sort that looks at a key
+        // prefix only would let arrival order decide which one is admitted
+        picks.retain(|(r, _)| *r != 4);
+        if let Some((a, b)) = prefix_colliding_pair(4, 4) {
+            for lbl in [a, b] {
+                store.insert_node(ids::node(&lbl), warp_core::NodeRecord { ty: ids::ty("tA") });
+                picks.push((4, lbl));
+            }
+            pairs_found += 1;
         }
         let mut state = WarpState::new();
         warp_core::verif::upsert_instance(&mut state, warp_core::WarpInstance { warp_id: ids::warp("w0"), root_node: ids::node("n0"), parent: None }, store);
@@ -331,6 +343,21 @@ pub fn run_big(args: &[String]) -> i32 {
         }
     }
     out.finish();
-    println!("{}", json!({"runs":runs,"violations":violations}));
+    println!("{}", json!({"runs":runs,"prefix_colliding_pairs_used":pairs_found,"violations":violations}));
     0
+}
+
+/// Searches node labels "y<i>" for two whose scope hashes under rule `r` (instance w0) share their first
+/// `nbytes` bytes. 4 bytes need ~80k labels (birthday bound); gives up after 2M.
+fn prefix_colliding_pair(r: usize, nbytes: usize) -> Option<(String, String)> {
+    let mut seen: std::collections::HashMap<Vec<u8>, usize> = std::collections::HashMap::new();
+    let rule = programs::rule_id(r);
+    for i in 0..2_000_000usize {
+        let lbl = format!("y{i}");
+        let h = warp_core::scope_hash(&rule, &warp_core::NodeKey { warp_id: ids::warp("w0"), local_id: ids::node(&lbl) });
+        if let Some(j) = seen.insert(h[..nbytes].to_vec(), i) {
+            return Some((format!("y{j}"), lbl));
+        }
+    }
+    None
 }
